@@ -470,8 +470,8 @@ func (u *Universe) TLA() []byte {
 }
 
 // ConstCfg is the CONSTANTS part of a cfg file.
-func ConstCfg(methods, spellings []string, maxSpell int, hdrCross bool, stacks []string) string {
+func ConstCfg(methods, spellings []string, maxSpell int, hdrCross bool, stacks []string, uiModes []bool) string {
 	return "CONSTANTS\n  Templates <- cTemplates\n  DocOps <- cDocOps\n  EmbOps <- cEmbOps\n  EmbOrder <- cEmbOrder\n" +
 		"  ParamVal <- cParamVal\n  ParamBk <- cParamBk\n  IntParams <- cIntParams\n  Tok <- cTok\n  Variant <- cVariant\n  EffectOf <- cEffectOf\n" +
-		fmt.Sprintf("  Methods = %s\n  Spellings = %s\n  MaxSpell = %d\n  Stacks = %s\n  HdrCross = %s\n", qset(methods), qset(spellings), maxSpell, qset(stacks), tlaBool(hdrCross))
+		fmt.Sprintf("  Methods = %s\n  Spellings = %s\n  MaxSpell = %d\n  Stacks = %s\n  HdrCross = %s\n  UiModes = %s\n", qset(methods), qset(spellings), maxSpell, qset(stacks), tlaBool(hdrCross), tlaBoolSet(uiModes))
 }
